@@ -18,6 +18,7 @@ Inductive tok :=
 | THeader            (* Content-Type: application/json CRLF CRLF *)
 | TInitial (p : payload)                          (* the initial response as JSON *)
 | TIncremental (ps : list payload) (hn : bool)    (* {"incremental":[...],"hasNext":hn} *)
+| TFinal                                          (* {"hasNext":false}: the part that ends a stream left open *)
 | TCRLF.
 
 Definition last_hn (s : mst) : bool :=
@@ -56,8 +57,16 @@ Fixpoint mrun (s : mst) (acts : list mact) {struct acts} : list tok :=
   | a :: r => let (s', o) := mstep s a in o ++ mrun s' r
   end.
 
+(** Done: the last flush; then, when the last delimiter written was not the closing boundary (the operation ended
+    after a payload that announced more - its context ended, say), one more part that says nothing follows, and the
+    closing boundary *)
+Definition ends_open (l : list tok) : bool := match rev l with TBoundary :: _ => true | _ => false end.
+Definition close_toks : list tok := [THeader; TFinal; TCRLF; TClosing].
+Definition mrun_done (acts : list mact) : list tok :=
+  let t := mrun m0 (acts ++ [MDone]) in if ends_open t then t ++ close_toks else t.
+
 (** ---- parsing a token stream into parts ---- *)
-Inductive body := BInitial (p : payload) | BIncr (ps : list payload) (hn : bool).
+Inductive body := BInitial (p : payload) | BIncr (ps : list payload) (hn : bool) | BFinal.
 Inductive pstate := ExpBoundary | ExpHeader | PClosed.
 
 Definition cons_body (b : body) (o : option (list body * pstate)) : option (list body * pstate) :=
@@ -75,6 +84,7 @@ Fixpoint parse_toks (st : pstate) (l : list tok) {struct l} : option (list body 
           | TInitial p :: TCRLF :: TClosing :: r' => cons_body (BInitial p) (parse_toks PClosed r')
           | TIncremental ps hn :: TCRLF :: TBoundary :: r' => cons_body (BIncr ps hn) (parse_toks ExpHeader r')
           | TIncremental ps hn :: TCRLF :: TClosing :: r' => cons_body (BIncr ps hn) (parse_toks PClosed r')
+          | TFinal :: TCRLF :: TClosing :: r' => cons_body BFinal (parse_toks PClosed r')
           | _ => None
           end
       | _, _ => None        (* in particular: anything after the closing boundary *)
